@@ -7,8 +7,17 @@ command -v java >/dev/null || { echo "java missing"; exit 1; }
 chmod +x check
 fail=0
 for f in spec/*.tla; do
+  case "$f" in spec/Apa_*) continue;; esac      # Apalache wrappers: type-checked with Apalache below
   out=$(cd spec && java -cp /opt/veriftools/tla/tla2tools.jar:/opt/veriftools/tla/CommunityModules-deps.jar tla2sany.SANY "$(basename "$f")" 2>&1)
   if echo "$out" | grep -qiE "Fatal errors|\*\*\* Errors|Could not parse|Cannot find"; then echo "SANY failed on $f"; echo "$out" | tail -20; fail=1; fi
 done
+command -v apalache-mc >/dev/null || { echo "apalache-mc missing"; exit 1; }
+d=$(mktemp -d /dev/shm/apa-setup.XXXXXX 2>/dev/null || mktemp -d)
+for f in spec/Apa_*.tla; do
+  cp spec/*.tla "$d"/
+  out=$(cd "$d" && apalache-mc typecheck --out-dir="$d/out" "$(basename "$f")" 2>&1)
+  echo "$out" | grep -q "EXITCODE: OK" || { echo "Apalache typecheck failed on $f"; echo "$out" | tail -20; fail=1; }
+done
+rm -rf "$d"
 /venv/bin/python -c "import sys; sys.path.insert(0,'/repo'); import btc_hd_wallet, ecdsa; import harness.refprims" || fail=1
 exit $fail
